@@ -302,7 +302,9 @@ def strategy():
     b = hs.booleans()
     return hs.fixed_dictionaries({
         "tool": hs.sampled_from(["validate", "validate", "validate", "write", "write", "write", "eject", "compile", "cli_validate", "cli_write"]),
-        "content_kind": hs.sampled_from(CONTENT_KINDS), "schema": hs.sampled_from(SCHEMAS), "profile": hs.sampled_from(PROFILES),
+        "content_kind": hs.sampled_from(CONTENT_KINDS + ["unknown_meta_field", "missing_version", "bad_status", "case_status", "valid"] * 2),
+        "schema": hs.one_of(hs.sampled_from(sorted(KNOWN_OK)), hs.sampled_from(["META", "GEN_A", "GEN_W"]), hs.sampled_from(SCHEMAS)),
+        "profile": hs.sampled_from(PROFILES + ["STRICT", "STANDARD"]),
         "fix": b, "debug_grammar": b, "grammar_hint": b, "diff_only": b, "compact": b, "lenient": b, "corrections_only": b, "via_file": b,
         "parse_error_policy": hs.sampled_from([None, None, "error", "salvage"]), "latest_planted": b, "with_content": b,
         "mutation": hs.sampled_from([None, None, None, "delete", "break", "stricter"]),
@@ -359,4 +361,4 @@ def shrink_candidates(case):
 
 
 def run(ctx: Ctx) -> Stats:
-    return run_sharded(shard, ctx, extra=(ctx.pick(1500, 20000),))
+    return run_sharded(shard, ctx, extra=(ctx.pick(3000, 30000),))
